@@ -11,8 +11,9 @@ func vh_install_snapshot() { vInstallSnapshot(2+vTier(), false) }
 func vh_install_faults() { vInstallSnapshot(1, true) }
 
 func vInstallSnapshot(w int, faults bool) {
-	mono := vChoose("mono", 0, 1) == 1
-	r, env := vNewRaft("f", vRaftOpts{n: 1, w: w, shaped: true, mono: mono})
+	flavour := vChoose("storeFlavour", 0, 2) // 0 plain, 1 monotonic, 2 MonotonicLogStore shim answering false (LogCache over a plain store)
+	mono := flavour == 1
+	r, env := vNewRaft("f", vRaftOpts{n: 1, w: w, shaped: true, mono: mono, monoShim: flavour == 2})
 	s := env.logs
 	l := vNewPeerLog("L", w)
 	base := vBase()
@@ -163,11 +164,14 @@ func vh_take_snapshot() {
 	}
 	// the FSM goroutine has applied up to lastApplied: feed it that entry so that its (lastIndex, lastTerm) are set
 	applied := r.lastApplied
-	hasApplied := s.has(applied)
+	// the FSM goroutine may lag behind lastApplied (batches handed over but not consumed yet): it has consumed
+	// up to `fsmAt` = applied or applied-1; a snapshot is stamped with what the FSM has consumed
+	fsmAt := applied - uint64(vChoose("fsmLag", 0, 1))
+	hasApplied := s.has(fsmAt)
 	var fsmIdx, fsmTerm uint64
 	if hasApplied {
-		fsmIdx, fsmTerm = applied, s.term.Get(applied)
-		r.fsmMutateCh <- []*commitTuple{{&Log{Index: applied, Term: fsmTerm, Type: LogCommand}, nil}}
+		fsmIdx, fsmTerm = fsmAt, s.term.Get(fsmAt)
+		r.fsmMutateCh <- []*commitTuple{{&Log{Index: fsmAt, Term: fsmTerm, Type: LogCommand}, nil}}
 	}
 	cfg := r.conf.Load().(Config)
 	cfg.TrailingLogs = uint64(vChoose("trailing", 0, 2))
@@ -214,6 +218,7 @@ func vh_take_snapshot() {
 		vCover("snapshot.taken")
 		vAssert(created && closedOK && !canceled, "C11.snapshot.durable-before-success")
 		vAssert(ci == fsmIdx && ct == fsmTerm, "C11.snapshot.stamped-with-fsm-position")
+		vAssert(ci == fsmIdx && ct == fsmTerm, "C02.snapshot.index-is-what-the-fsm-consumed")
 		sink := env.snaps.sinks[len(env.snaps.sinks)-1]
 		vAssert(vSameServers(sink.meta.Configuration.Servers, preCommitted.Servers) && sink.meta.ConfigurationIndex == preCommittedIndex, "C11.snapshot.carries-committed-configuration")
 		vAssert(preCommittedIndex <= fsmIdx, "C11.snapshot.refused-before-config-applied")
